@@ -50,3 +50,8 @@ claim("C04", "other",
   "Error discipline decided over every return and every call of the single validity oracle: who may call the scanner/parser (V1), error implies zero result at every return in every analysed context (V2, abstract interpreter), no parse error dropped (V3), the origins of every error an entry point can return are exactly the specified ones (V4), ValidateLicenses is an in-order filter by 'parse fails' (V5), compound allowed entries are rejected before use (V6).",
   "That parse's accept/reject decision is the SPDX grammar is C05; determinism is C13. V4 compares error origins and their guards with the specified set, so a new legitimate error condition must be added to the specification table in rules_c04.go.",
   "call-graph who-may-call + abstract interpretation of result tuples + error provenance", "DESIGN.md section 3 C04")
+
+claim("C05", "other",
+  "Narrow necessary conditions of 'the accepted language is the SPDX grammar': scanner/parser operator and token-role tables agree (G1, G3), keyword order (G2), every buffer rewrite keeps all unread input and every cursor advance covers only matched text (G4, linear entailment under inferred cursor invariants), acceptance only at end of input (G5), consumption implies error or progress (G6, abstract interpretation with a symbolic cursor), every listed id is readable (G7), precedence layering and parenthesis transparency (P1).",
+  "Language equality itself is NOT decided (e.g. which interleavings of '+', WITH, ':' are accepted). No recogniser is extracted and run.",
+  "writer/reader table agreement + linear entailment on cursor arithmetic + abstract interpretation of the token cursor", "DESIGN.md section 3 C05")
